@@ -89,6 +89,17 @@ func vfC17(w *vfWorld) {
 			w.fatalf("c17: %v", err)
 		}
 	}
+	// a sixth of the worlds reach their upstreams over TLS: the product's transport either verifies the simulated CA (the provider CA
+	// file also governs the upstream transports, which are clones of the default one) or was told not to verify this upstream
+	upTLS := ""
+	if t.Prob("c17.upstream-tls", 160) {
+		upTLS = vfPick(t, "c17.upstream-tls-trust", []string{"ca-file", "skip-verify"})
+		if upTLS == "ca-file" {
+			cfg.Extra = append(cfg.Extra, "--provider-ca-file="+w.writeFile("sim-ca.pem", vfTLSMaterial().CAPEM))
+		}
+		w.probe("c17:upstream-tls:" + upTLS)
+	}
+	impostor := map[string]string{} // upstream host -> certificate trouble it presents from now on
 	var rules []vfUpRule
 	for i, r := range pool {
 		if i == 0 || t.Prob("c17.rule", 550) {
@@ -116,6 +127,9 @@ func vfC17(w *vfWorld) {
 				u.Static = true
 				code := 204
 				u.StaticCode = &code
+			} else if upTLS != "" {
+				u.URI = "https://" + r.Host + r.Base
+				u.InsecureSkipTLSVerify = upTLS == "skip-verify"
 			} else {
 				u.URI = "http://" + r.Host + r.Base
 			}
@@ -125,7 +139,11 @@ func vfC17(w *vfWorld) {
 	cfg.Extra = append(cfg.Extra, "--pass-access-token=true")
 	w.StartIdP()
 	for _, h := range []string{"up1.sim", "up2.sim", "up3.sim", "up4.sim"} {
-		w.AddUpstream(h)
+		u := w.AddUpstream(h)
+		if upTLS != "" {
+			host := h
+			w.net.ServeTLS(w, h+":443", u, func(task string) string { return impostor[host] })
+		}
 	}
 	rep := w.MustReplica("R1", cfg)
 	pp := cfg.ProxyPrefix
@@ -296,10 +314,12 @@ func vfC17(w *vfWorld) {
 		}
 		if fault == "refuse" && rule != nil && !rule.Static {
 			w.net.SetRefuse(rule.Host+":80", true)
+			w.net.SetRefuse(rule.Host+":443", true)
 		}
 		r := b.Do(rep, req)
 		if fault == "refuse" && rule != nil && !rule.Static {
 			w.net.SetRefuse(rule.Host+":80", false)
+			w.net.SetRefuse(rule.Host+":443", false)
 		}
 		if r.ParseErr != nil {
 			continue
@@ -528,6 +548,24 @@ func vfC17(w *vfWorld) {
 		}
 	}
 	_ = time.Second
+	if upTLS != "" {
+		// at the end somebody else answers under the first upstream's name: a certificate for another host, out of its validity, or
+		// signed by a CA this deployment was never told about. Unless the operator switched verification off for this upstream,
+		// authenticated traffic (and the tokens it carries) must not be delivered there: "the right upstream"
+		for _, kind := range vfTLSCertKinds {
+			impostor["up1.sim"] = kind
+			mark := w.upMark()
+			r := b.GET(rep, "/zz-impostor/"+strings.TrimPrefix(kind, "tls:"))
+			got := w.upMark() - mark
+			if upTLS == "ca-file" && (got > 0 || len(r.UpHits) > 0) {
+				w.violate("C17", "delivered-to-impostor", kind, "GET /zz-impostor: the upstream up1.sim presented a %s certificate, the transport was configured to verify it against the provider CA file, yet the request was delivered (status %d)", kind, r.Status)
+			}
+			if upTLS == "skip-verify" && got == 0 {
+				w.probe("c17:skip-verify-upstream-refused")
+			}
+		}
+		delete(impostor, "up1.sim")
+	}
 	w.distKey = fmt.Sprintf("%v/%v", cs.Rules, cs.RawPath)
 }
 
